@@ -1,4 +1,948 @@
-//! C16 monitor (not written yet).
-pub fn run(_ctx: &crate::ctx::Ctx, report: &mut vcore::Report) {
-    report.notes.push("stub".into());
+//! C16 – Bearer tokens and resource identifiers are validated exactly on every entry path.
+//!
+//! Oracle: the hand-written recognisers of `vcore::models` (no regex, no table). Every entry path
+//! must accept exactly the recognised language and keep the text; accepted values render back
+//! identically; a rid's accessors equal the recogniser's split; `from_components` succeeds iff
+//! each component is individually valid. The bounded-length part is enumerated exhaustively.
+use crate::ctx::{guarded, Ctx};
+use conjure_object::{Any, BearerToken, FromPlain, Plain, ResourceIdentifier, ToPlain};
+use conjure_serde::{json, smile};
+use serde::de::DeserializeOwned;
+use serde::Serialize;
+use serde_json::json;
+use std::borrow::Borrow;
+use std::collections::BTreeMap;
+use std::str::FromStr;
+use std::sync::atomic::{AtomicUsize, Ordering};
+use vcore::json::J;
+use vcore::models::{is_bearer_token, rid_component_valid, rid_split};
+use vcore::rng::fnv;
+use vcore::text::{hostile_char, hostile_string};
+use vcore::{Report, Rng};
+
+// ---------------------------------------------------------------------------------------------
+// subjects
+
+trait Subject: Sized + DeserializeOwned + Serialize + Ord + FromStr + FromPlain + Plain {
+    const NAME: &'static str;
+    fn construct(s: &str) -> Result<Self, String>;
+    fn text(&self) -> &str;
+    /// The independent recogniser.
+    fn valid(s: &str) -> bool;
+    /// Type specific renderings / accessors of an accepted value that came from text `s`.
+    fn extra_render(&self, s: &str, bad: &mut dyn FnMut(&'static str, String));
+}
+
+impl Subject for BearerToken {
+    const NAME: &'static str = "token";
+    fn construct(s: &str) -> Result<Self, String> {
+        BearerToken::new(s).map_err(|e| e.to_string())
+    }
+    fn text(&self) -> &str {
+        self.as_str()
+    }
+    fn valid(s: &str) -> bool {
+        is_bearer_token(s)
+    }
+    fn extra_render(&self, s: &str, bad: &mut dyn FnMut(&'static str, String)) {
+        if AsRef::<str>::as_ref(self) != s {
+            bad("as_ref", AsRef::<str>::as_ref(self).to_string());
+        }
+        if Borrow::<str>::borrow(self) != s {
+            bad("borrow", Borrow::<str>::borrow(self).to_string());
+        }
+        let owned = self.clone().into_string();
+        if owned != s {
+            bad("into_string", owned);
+        }
+    }
+}
+
+impl Subject for ResourceIdentifier {
+    const NAME: &'static str = "rid";
+    fn construct(s: &str) -> Result<Self, String> {
+        ResourceIdentifier::new(s).map_err(|e| e.to_string())
+    }
+    fn text(&self) -> &str {
+        self.as_str()
+    }
+    fn valid(s: &str) -> bool {
+        rid_split(s).is_some()
+    }
+    fn extra_render(&self, s: &str, bad: &mut dyn FnMut(&'static str, String)) {
+        match guarded(|| self.to_string()) {
+            Ok(d) if d == s => {}
+            Ok(d) => bad("display", d),
+            Err(p) => bad("display-panic", p),
+        }
+        if AsRef::<str>::as_ref(self) != s {
+            bad("as_ref", AsRef::<str>::as_ref(self).to_string());
+        }
+        if Borrow::<str>::borrow(self) != s {
+            bad("borrow", Borrow::<str>::borrow(self).to_string());
+        }
+        let owned = self.clone().into_string();
+        if owned != s {
+            bad("into_string", owned);
+        }
+        accessors(self, s, rid_split(s), bad);
+    }
+}
+
+/// The four accessors: re-joined they give `s`; each equals the expected component.
+fn accessors(v: &ResourceIdentifier, s: &str, want: Option<[&str; 4]>, bad: &mut dyn FnMut(&'static str, String)) {
+    let got = guarded(|| {
+        [v.service().to_string(), v.instance().to_string(), v.type_().to_string(), v.locator().to_string()]
+    });
+    match got {
+        Err(p) => bad("accessor-panic", p),
+        Ok(got) => {
+            let joined = format!("ri.{}.{}.{}.{}", got[0], got[1], got[2], got[3]);
+            if joined != s {
+                bad("accessors-do-not-rejoin", joined);
+            }
+            if let Some(want) = want {
+                const NAMES: [&str; 4] = ["accessor-service", "accessor-instance", "accessor-type", "accessor-locator"];
+                for i in 0..4 {
+                    if got[i] != want[i] {
+                        bad(NAMES[i], got[i].clone());
+                    }
+                }
+            }
+        }
+    }
+}
+
+// ---------------------------------------------------------------------------------------------
+// entry paths
+
+enum Got<T> {
+    Ok(T),
+    Err,
+    Panic(String),
+}
+
+fn enter<T, E>(f: impl FnOnce() -> Result<T, E>) -> Got<T> {
+    match guarded(f) {
+        Ok(Ok(v)) => Got::Ok(v),
+        Ok(Err(_)) => Got::Err,
+        Err(p) => Got::Panic(p),
+    }
+}
+
+fn enter_key<T: Ord, E>(f: impl FnOnce() -> Result<BTreeMap<T, bool>, E>) -> Got<T> {
+    match guarded(f) {
+        Ok(Ok(m)) => {
+            if m.len() != 1 {
+                return Got::Err;
+            }
+            Got::Ok(m.into_iter().next().unwrap().0)
+        }
+        Ok(Err(_)) => Got::Err,
+        Err(p) => Got::Panic(p),
+    }
+}
+
+const PATHS: [&str; 15] = [
+    "from_str",
+    "new",
+    "from_plain",
+    "json_value/client",
+    "json_value/server",
+    "json_key/client",
+    "json_key/server",
+    "smile_value/client",
+    "smile_value/server",
+    "smile_key/client",
+    "smile_key/server",
+    "any_value",
+    "any_doc",
+    "any_key",
+    "json_value/server-reader",
+];
+
+struct Env<'a> {
+    rep: &'a mut Report,
+    sub: &'a str,
+    seed: u64,
+    /// [type][path][accepted, rejected]
+    counts: [[[u64; 2]; 15]; 2],
+    comp: [u64; 2],
+}
+
+impl<'a> Env<'a> {
+    fn new(rep: &'a mut Report, sub: &'a str) -> Env<'a> {
+        Env { rep, sub, seed: 0, counts: [[[0; 2]; 15]; 2], comp: [0; 2] }
+    }
+
+    fn flush(&mut self) {
+        for (t, name) in ["token", "rid"].iter().enumerate() {
+            for (p, path) in PATHS.iter().enumerate() {
+                for (o, out) in ["accepted", "rejected"].iter().enumerate() {
+                    let n = self.counts[t][p][o];
+                    if n > 0 {
+                        self.rep.cell_n(&format!("path/{}/{}/{}", name, path, out), n);
+                    }
+                }
+            }
+        }
+        for (o, out) in ["accepted", "rejected"].iter().enumerate() {
+            if self.comp[o] > 0 {
+                self.rep.cell_n(&format!("path/rid/from_components/{}", out), self.comp[o]);
+            }
+        }
+        self.counts = [[[0; 2]; 15]; 2];
+        self.comp = [0; 2];
+    }
+
+    fn fail(&mut self, ty: &str, path: &str, what: &str, input: &str, observed: String, expected: &str) {
+        self.rep.violation(
+            self.sub,
+            self.seed,
+            format!("{}/{}:{}", ty, path, what),
+            json!({"type": ty, "path": path, "input": input, "input_escaped": format!("{:?}", input),
+                   "observed": clip(&observed), "expected": expected}),
+        );
+    }
+
+    /// All entry paths of `T` on the string `s`.
+    fn check<T: Subject>(&mut self, s: &str) -> bool {
+        let ti = if T::NAME == "token" { 0 } else { 1 };
+        let expected = T::valid(s);
+        let mut quoted = String::with_capacity(s.len() + 2);
+        vcore::json::quote(s, &mut quoted);
+        let key_doc = format!("{{{}:true}}", quoted);
+        let smile_value = serde_smile::to_vec(&s).expect("smile string");
+        let one: BTreeMap<&str, bool> = [(s, true)].into_iter().collect();
+        let smile_key = serde_smile::to_vec(&one).expect("smile map");
+        for (pi, path) in PATHS.iter().enumerate() {
+            let got: Got<T> = match pi {
+                0 => enter(|| s.parse::<T>()),
+                1 => enter(|| T::construct(s)),
+                2 => enter(|| T::from_plain(s)),
+                3 => enter(|| json::client_from_str::<T>(&quoted)),
+                4 => enter(|| json::server_from_str::<T>(&quoted)),
+                5 => enter_key(|| json::client_from_str(&key_doc)),
+                6 => enter_key(|| json::server_from_str(&key_doc)),
+                7 => enter(|| smile::client_from_slice::<T>(&smile_value)),
+                8 => enter(|| smile::server_from_slice::<T>(&smile_value)),
+                9 => enter_key(|| smile::client_from_slice(&smile_key)),
+                10 => enter_key(|| smile::server_from_slice(&smile_key)),
+                11 => enter(|| Any::new(s)?.deserialize_into::<T>()),
+                12 => enter(|| json::client_from_str::<Any>(&quoted).map_err(|_| ())?.deserialize_into::<T>().map_err(|_| ())),
+                13 => enter_key(|| Any::new(&one)?.deserialize_into()),
+                _ => enter(|| json::server_from_reader::<_, T>(quoted.as_bytes())),
+            };
+            self.rep.evaluations += 1;
+            match got {
+                Got::Panic(p) => self.fail(T::NAME, path, "panic", s, p, "Ok or Err"),
+                Got::Err => {
+                    self.counts[ti][pi][1] += 1;
+                    if expected {
+                        self.fail(T::NAME, path, "rejects-valid", s, "Err".into(), "accepted (the string matches the grammar)");
+                    }
+                }
+                Got::Ok(v) => {
+                    self.counts[ti][pi][0] += 1;
+                    if !expected {
+                        self.fail(T::NAME, path, "accepts-invalid", s, format!("Ok({:?})", v.text()), "rejected (the string does not match the grammar)");
+                    }
+                    if v.text() != s {
+                        self.fail(T::NAME, path, "text-changed", s, v.text().to_string(), "as_str() == input");
+                    }
+                    // renderings of an accepted value
+                    self.render(&v, s, path);
+                }
+            }
+        }
+        expected
+    }
+
+    fn render<T: Subject>(&mut self, v: &T, s: &str, path: &str) {
+        let mut bad: Vec<(&'static str, String)> = vec![];
+        self.rep.evaluations += 1;
+        match guarded(|| v.to_plain()) {
+            Ok(t) if t == s => {}
+            Ok(t) => bad.push(("to_plain", t)),
+            Err(p) => bad.push(("to_plain-panic", p)),
+        }
+        match guarded(|| json::to_string(v)) {
+            Ok(Ok(doc)) => match vcore::json::parse(doc.as_bytes()) {
+                Ok(J::Str(t)) if t == s => {}
+                _ => bad.push(("serialize-json", doc)),
+            },
+            Ok(Err(e)) => bad.push(("serialize-json-error", e.to_string())),
+            Err(p) => bad.push(("serialize-json-panic", p)),
+        }
+        match guarded(|| smile::to_vec(v)) {
+            Ok(Ok(bytes)) => match serde_smile::from_slice::<String>(&bytes) {
+                Ok(t) if t == s => {}
+                other => bad.push(("serialize-smile", format!("{:?}", other.ok()))),
+            },
+            Ok(Err(e)) => bad.push(("serialize-smile-error", e.to_string())),
+            Err(p) => bad.push(("serialize-smile-panic", p)),
+        }
+        v.extra_render(s, &mut |what, got| bad.push((what, got)));
+        for (what, got) in bad {
+            self.fail(T::NAME, &format!("{}>render", path), what, s, got, "identical to the input string");
+        }
+    }
+
+    /// `from_components` on one tuple.
+    fn components(&mut self, c: [&str; 4]) {
+        self.rep.evaluations += 1;
+        let expected = (0..4).all(|i| rid_component_valid(i, c[i]));
+        let shown = format!("{:?}", c);
+        match enter(|| ResourceIdentifier::from_components(c[0], c[1], c[2], c[3])) {
+            Got::Panic(p) => self.fail("rid", "from_components", "panic", &shown, p, "Ok or Err"),
+            Got::Err => {
+                self.comp[1] += 1;
+                if expected {
+                    self.fail("rid", "from_components", "rejects-valid", &shown, "Err".into(), "Ok: every component is individually valid");
+                }
+            }
+            Got::Ok(v) => {
+                self.comp[0] += 1;
+                if !expected {
+                    self.fail("rid", "from_components", "accepts-invalid", &shown, format!("Ok({:?})", v.as_str()), "Err: a component is not valid");
+                }
+                let want = format!("ri.{}.{}.{}.{}", c[0], c[1], c[2], c[3]);
+                if v.as_str() != want {
+                    self.fail("rid", "from_components", "text-changed", &shown, v.as_str().to_string(), "ri.<service>.<instance>.<type>.<locator>");
+                }
+                let mut bad: Vec<(&'static str, String)> = vec![];
+                accessors(&v, &want, Some(c), &mut |w, g| bad.push((w, g)));
+                for (what, got) in bad {
+                    self.fail("rid", "from_components>render", what, &shown, got, "the component passed in");
+                }
+            }
+        }
+    }
+}
+
+fn clip(s: &str) -> String {
+    if s.chars().count() > 300 {
+        format!("{}…", s.chars().take(300).collect::<String>())
+    } else {
+        s.to_string()
+    }
+}
+
+// ---------------------------------------------------------------------------------------------
+// structural signatures
+
+fn char_class(c: char) -> char {
+    match c {
+        'a'..='z' => 'l',
+        'A'..='Z' => 'U',
+        '0'..='9' => 'd',
+        '=' => '=',
+        '.' => '.',
+        '-' => '-',
+        '_' => '_',
+        '~' | '+' | '/' => 'p',
+        c if (c as u32) < 0x20 || c as u32 == 0x7f => 'C',
+        ' ' => 'S',
+        c if c.is_ascii() => 'x',
+        _ => 'N',
+    }
+}
+
+/// Coarser classes for the token patterns: the six punctuation characters are one class.
+fn token_class(c: char) -> char {
+    match char_class(c) {
+        '.' | '-' | '_' | 'p' => 'p',
+        'S' | 'x' => 'x',
+        other => other,
+    }
+}
+
+fn token_sig(s: &str) -> String {
+    let n = s.chars().count();
+    if n <= 4 {
+        format!("token:len={}:{}", n, s.chars().map(token_class).collect::<String>())
+    } else {
+        let body = s.trim_end_matches('=');
+        let pad = s.len() - body.len();
+        let mut classes: Vec<char> = body.chars().map(token_class).collect();
+        let first = classes[..].first().copied().unwrap_or('0');
+        let last = classes[..].last().copied().unwrap_or('0');
+        classes.sort_unstable();
+        classes.dedup();
+        let bad: String = classes.into_iter().filter(|c| !"lUdp".contains(*c)).collect();
+        format!("token:long:len~{}:pad={}:first={}:last={}:foreign={}", 64 - (n as u64).leading_zeros(), pad.min(3), first, last, bad)
+    }
+}
+
+fn component_class(idx: usize, c: &str) -> char {
+    if c.is_empty() {
+        return 'E';
+    }
+    if rid_component_valid(idx, c) {
+        return if c.contains('.') { 'W' } else { 'V' };
+    }
+    if c.chars().any(|ch| !ch.is_ascii()) {
+        'N'
+    } else if c.chars().any(|ch| ch.is_control()) {
+        'C'
+    } else if c.contains('.') {
+        'D'
+    } else if c.chars().all(|ch| ch.is_ascii_lowercase() || ch.is_ascii_digit() || ch == '-') {
+        'F' // only the first character is wrong
+    } else {
+        'X'
+    }
+}
+
+fn rid_sig(s: &str) -> String {
+    match s.strip_prefix("ri.") {
+        Some(rest) => {
+            let parts: Vec<&str> = rest.splitn(4, '.').collect();
+            let classes: String = parts.iter().enumerate().map(|(i, p)| component_class(i, p)).collect();
+            format!("rid:{}:len~{}", classes, 64 - (s.len() as u64).leading_zeros())
+        }
+        None => {
+            let head: String = s.chars().take(3).map(char_class).collect();
+            format!(
+                "rid:no-prefix:{}:dots={}:valid-tail={}",
+                head,
+                s.matches('.').count().min(6),
+                s.find('.').map(|i| rid_split(&format!("ri{}", &s[i..])).is_some()).unwrap_or(false)
+            )
+        }
+    }
+}
+
+// ---------------------------------------------------------------------------------------------
+// enumerations
+
+/// Every character class boundary of the token grammar: the ends of the three ranges, the six
+/// punctuation characters and `=`, and their ASCII neighbours, plus newline, space, DEL, non-ASCII.
+const TOKEN_ALPHABET: [char; 25] = [
+    'a', 'z', 'A', 'Z', '0', '9', '-', '.', '_', '~', '+', '/', '=', '@', '[', '`', '{', ',', ':', '\n', ' ', 'é', '^', '\u{7f}', '*',
+];
+
+/// Alphabet of the rid component enumeration.
+const RID_ALPHABET: [char; 8] = ['a', 'A', '0', '-', '_', '.', 'é', '\n'];
+
+fn pow(a: usize, k: usize) -> u64 {
+    (a as u64).pow(k as u32)
+}
+
+/// The `idx`-th string (shortest first) over `alphabet`.
+fn nth_string(alphabet: &[char], mut idx: u64) -> String {
+    let a = alphabet.len();
+    let mut len = 0;
+    while idx >= pow(a, len) {
+        idx -= pow(a, len);
+        len += 1;
+    }
+    let mut chars = vec![' '; len];
+    for k in (0..len).rev() {
+        chars[k] = alphabet[(idx % a as u64) as usize];
+        idx /= a as u64;
+    }
+    chars.into_iter().collect()
+}
+
+/// Runs `f(item, env)` for every item in `0..items` over all threads (dynamic scheduling).
+fn parallel<F>(ctx: &Ctx, rep: &mut Report, sub: &str, items: usize, f: F)
+where
+    F: Fn(usize, &mut Env) + Sync,
+{
+    let next = AtomicUsize::new(0);
+    let property = rep.property.clone();
+    let parts: Vec<Report> = std::thread::scope(|s| {
+        let handles: Vec<_> = (0..ctx.threads.max(1))
+            .map(|_| {
+                let f = &f;
+                let next = &next;
+                let property = property.clone();
+                s.spawn(move || {
+                    let mut r = Report::new(&property);
+                    {
+                        let mut env = Env::new(&mut r, sub);
+                        loop {
+                            let i = next.fetch_add(1, Ordering::Relaxed);
+                            if i >= items {
+                                break;
+                            }
+                            f(i, &mut env);
+                        }
+                        env.flush();
+                    }
+                    r
+                })
+            })
+            .collect();
+        handles.into_iter().map(|h| h.join().expect("monitor thread")).collect()
+    });
+    for p in parts {
+        rep.merge(p);
+    }
+}
+
+/// All strings over the rid alphabet up to length 3, shortest first (so the words up to length 2
+/// are a prefix and a tuple's case seed does not depend on the tier).
+fn rid_words() -> Vec<String> {
+    let n: u64 = (0..=3).map(|k| pow(RID_ALPHABET.len(), k)).sum();
+    (0..n).map(|i| nth_string(&RID_ALPHABET, i)).collect()
+}
+
+fn words_upto(words: &[String], maxc: usize) -> usize {
+    words.iter().take_while(|w| w.chars().count() <= maxc).count()
+}
+
+/// Number of component tuples with each length <= maxc and total length <= maxt.
+fn tuple_count(maxc: usize, maxt: usize) -> u64 {
+    let a = RID_ALPHABET.len();
+    let mut n = 0;
+    for l0 in 0..=maxc {
+        for l1 in 0..=maxc {
+            for l2 in 0..=maxc {
+                for l3 in 0..=maxc {
+                    if l0 + l1 + l2 + l3 <= maxt {
+                        n += pow(a, l0 + l1 + l2 + l3);
+                    }
+                }
+            }
+        }
+    }
+    n
+}
+
+const W: u64 = 585; // rid_words().len()
+
+/// Enumerates the tuples below the work item (i0, i1); `parse`: run the string entry paths on
+/// the joined string when the total length is <= `parse_maxt`, `from_components` always.
+fn tuple_item(env: &mut Env, words: &[String], lens: &[usize], nw: usize, item: usize, maxt: usize, parse_maxt: usize, only: Option<u64>) {
+    let (i0, i1) = (item / nw, item % nw);
+    if lens[i0] + lens[i1] > maxt {
+        return;
+    }
+    let mut joined = String::new();
+    let (mut comp_n, mut str_n, mut valid_n) = ([0u64; 16], [0u64; 16], 0u64);
+    for i2 in 0..nw {
+        let l2 = lens[i0] + lens[i1] + lens[i2];
+        if l2 > maxt {
+            break; // words are sorted by length
+        }
+        for i3 in 0..nw {
+            let total = l2 + lens[i3];
+            if total > maxt {
+                break;
+            }
+            let seed = ((i0 as u64 * W + i1 as u64) * W + i2 as u64) * W + i3 as u64;
+            if only.map(|o| o != seed).unwrap_or(false) {
+                continue;
+            }
+            env.seed = seed;
+            let c = [words[i0].as_str(), words[i1].as_str(), words[i2].as_str(), words[i3].as_str()];
+            env.components(c);
+            comp_n[total] += 1;
+            if total <= parse_maxt {
+                joined.clear();
+                joined.push_str("ri.");
+                joined.push_str(c[0]);
+                joined.push('.');
+                joined.push_str(c[1]);
+                joined.push('.');
+                joined.push_str(c[2]);
+                joined.push('.');
+                joined.push_str(c[3]);
+                env.rep.distinct.insert(fnv(&rid_sig(&joined)));
+                let ok = env.check::<ResourceIdentifier>(&joined);
+                str_n[total] += 1;
+                if ok {
+                    valid_n += 1;
+                }
+            }
+        }
+    }
+    for total in 0..16 {
+        if comp_n[total] > 0 {
+            env.rep.cell_n(&format!("exhaustive/rid-from_components/total-len={:02}", total), comp_n[total]);
+        }
+        if str_n[total] > 0 {
+            env.rep.cell_n(&format!("exhaustive/rid-strings/total-len={:02}", total), str_n[total]);
+        }
+    }
+    if valid_n > 0 {
+        env.rep.cell_n("exhaustive/rid-strings/valid", valid_n);
+    }
+}
+
+const PREFIXES: [&str; 16] = [
+    "ri.", "", "ri", "ri:", "Ri.", "rI.", "RI.", "ri..", "r.i.", " ri.", "\nri.", "ri.ri.", "rid.", "i.", "r.", "ｒｉ.",
+];
+const SUFFIXES: [&str; 8] = ["", "\n", ".", " ", "\u{0}", "é", "\r\n", ".a"];
+const SHAPE_PARTS: [&str; 7] = ["", "a", "A", "0", "-", ".", "a-0"];
+
+/// Strings around the frame of the grammar: wrong prefixes, suffixes, too few / too many parts.
+fn shape_strings() -> Vec<String> {
+    let mut out = vec![];
+    let n = SHAPE_PARTS.len();
+    for k in 0..=5usize {
+        let tuples = n.pow(k as u32);
+        for t in 0..tuples {
+            let mut body = String::new();
+            let mut x = t;
+            for j in 0..k {
+                if j > 0 {
+                    body.push('.');
+                }
+                body.push_str(SHAPE_PARTS[x % n]);
+                x /= n;
+            }
+            // all frames for the shapes with at most four parts, the plain frame for five
+            if k <= 4 {
+                for p in PREFIXES {
+                    for s in SUFFIXES {
+                        if k < 4 && !(p == "ri." || s.is_empty()) {
+                            continue;
+                        }
+                        out.push(format!("{}{}{}", p, body, s));
+                    }
+                }
+            } else {
+                out.push(format!("ri.{}", body));
+            }
+        }
+    }
+    out
+}
+
+// ---------------------------------------------------------------------------------------------
+// random part
+
+const TOKEN_BODY: &[u8] = b"abcdefghijklmnopqrstuvwxyzABCDEFGHIJKLMNOPQRSTUVWXYZ0123456789-._~+/";
+const LOWER: &[u8] = b"abcdefghijklmnopqrstuvwxyz";
+const LOWER_DIGIT: &[u8] = b"abcdefghijklmnopqrstuvwxyz0123456789";
+const LOWER_DIGIT_DASH: &[u8] = b"abcdefghijklmnopqrstuvwxyz0123456789-";
+const LOCATOR: &[u8] = b"abcdefghijklmnopqrstuvwxyzABCDEFGHIJKLMNOPQRSTUVWXYZ0123456789_.-";
+
+fn word(r: &mut Rng, first: &[u8], rest: &[u8], min: usize, max: usize) -> String {
+    let n = min + r.below(max - min + 1);
+    (0..n)
+        .map(|i| {
+            let set = if i == 0 { first } else { rest };
+            if r.chance(1, 4) { set[set.len() - 1 - r.below(3.min(set.len()))] as char } else { set[r.below(set.len())] as char }
+        })
+        .collect()
+}
+
+fn valid_token(r: &mut Rng) -> String {
+    let max = match r.below(10) {
+        0 => 400,
+        1 | 2 => 4,
+        _ => 48,
+    };
+    let mut s = word(r, TOKEN_BODY, TOKEN_BODY, 1, max);
+    for _ in 0..r.below(4) {
+        s.push('=');
+    }
+    s
+}
+
+fn valid_components(r: &mut Rng) -> [String; 4] {
+    let max = match r.below(10) {
+        0 => 60,
+        1 | 2 => 2,
+        _ => 9,
+    };
+    [
+        word(r, LOWER, LOWER_DIGIT_DASH, 1, max),
+        word(r, LOWER_DIGIT, LOWER_DIGIT_DASH, 0, max),
+        word(r, LOWER, LOWER_DIGIT_DASH, 1, max),
+        word(r, LOCATOR, LOCATOR, 1, 3 * max),
+    ]
+}
+
+fn hostile_edit_char(r: &mut Rng, home: &[char]) -> char {
+    match r.below(6) {
+        0 | 1 => *r.pick(home),
+        2 => *r.pick(&['=', '.', '\n', ' ', '\u{0}', '\r', '\t', ':', '/', '_', '-', 'A', 'a', '0', '%', '"', '\\', '\u{7f}', '\u{80}']),
+        3 => *r.pick(&['é', 'ａ', 'Ａ', '０', '．', '－', 'ß', 'İ', 'ı', 'K', '\u{200b}', '\u{feff}', '\u{2028}', '😀']),
+        _ => hostile_char(r),
+    }
+}
+
+/// One edit of `s`: insert, delete, replace, swap, duplicate a character, change case.
+fn mutate(r: &mut Rng, s: &str, home: &[char]) -> (String, &'static str) {
+    let mut cs: Vec<char> = s.chars().collect();
+    let n = cs.len();
+    // positions biased to the ends and to separators
+    let pos = |r: &mut Rng, upto: usize| -> usize {
+        if upto == 0 {
+            return 0;
+        }
+        match r.below(4) {
+            0 => 0,
+            1 => upto - 1,
+            _ => r.below(upto),
+        }
+    };
+    let kind = match r.below(7) {
+        0 | 1 => {
+            let at = match r.below(3) {
+                0 => n,
+                _ => pos(r, n + 1),
+            };
+            cs.insert(at.min(n), hostile_edit_char(r, home));
+            "insert"
+        }
+        2 if n > 0 => {
+            cs.remove(pos(r, n));
+            "delete"
+        }
+        3 | 4 if n > 0 => {
+            let at = pos(r, n);
+            cs[at] = hostile_edit_char(r, home);
+            "replace"
+        }
+        5 if n > 1 => {
+            let at = pos(r, n - 1);
+            cs.swap(at, at + 1);
+            "swap"
+        }
+        _ if n > 0 => {
+            let at = pos(r, n);
+            if cs[at].is_ascii_alphabetic() && r.bool() {
+                cs[at] = if cs[at].is_ascii_lowercase() { cs[at].to_ascii_uppercase() } else { cs[at].to_ascii_lowercase() };
+                "case"
+            } else {
+                let c = cs[at];
+                cs.insert(at, c);
+                "duplicate"
+            }
+        }
+        _ => {
+            cs.push(hostile_edit_char(r, home));
+            "insert"
+        }
+    };
+    (cs.into_iter().collect(), kind)
+}
+
+// ---------------------------------------------------------------------------------------------
+
+pub fn run(ctx: &Ctx, report: &mut Report) {
+    let replay_seed = ctx.replay.as_ref().map(|(_, s)| *s);
+    let small = ctx.scale < 0.5;
+    // bounds of the exhaustive parts
+    let token_len: usize = if ctx.thorough { 5 } else if small { 3 } else { 4 };
+    // (max component length, max total length) for from_components, max total for the string paths
+    let (maxc, comp_maxt, parse_maxt): (usize, usize, usize) = if ctx.thorough {
+        (3, 7, 6)
+    } else if small {
+        (2, 5, 4)
+    } else {
+        (2, 6, 5)
+    };
+
+    // ---- tokens: every string up to `token_len` over the boundary alphabet; case_seed = index
+    let token_total: u64 = (0..=token_len).map(|k| pow(TOKEN_ALPHABET.len(), k)).sum();
+    ctx.fixed(report, "tokens-exhaustive", |rep| {
+        const CHUNK: u64 = 2048;
+        let items = token_total.div_ceil(CHUNK) as usize;
+        parallel(ctx, rep, "tokens-exhaustive", items, |item, env| {
+            let lo = item as u64 * CHUNK;
+            for idx in lo..(lo + CHUNK).min(token_total) {
+                if replay_seed.map(|o| o != idx).unwrap_or(false) {
+                    continue;
+                }
+                let s = nth_string(&TOKEN_ALPHABET, idx);
+                env.seed = idx;
+                env.rep.distinct.insert(fnv(&token_sig(&s)));
+                let valid = env.check::<BearerToken>(&s);
+                let len = s.chars().count();
+                env.rep.cell(&format!("exhaustive/token-strings/len={}", len));
+                if valid {
+                    env.rep.cell(&format!("exhaustive/token-strings/valid/len={}", len));
+                }
+            }
+        });
+    });
+
+    // ---- rids: every component tuple within the bounds; case_seed = mixed-radix tuple index
+    let words = rid_words();
+    let lens: Vec<usize> = words.iter().map(|w| w.chars().count()).collect();
+    let nw = words_upto(&words, maxc);
+    ctx.fixed(report, "rid-exhaustive", |rep| {
+        parallel(ctx, rep, "rid-exhaustive", nw * nw, |item, env| {
+            tuple_item(env, &words, &lens, nw, item, comp_maxt, parse_maxt, replay_seed);
+        });
+    });
+
+    // ---- frames: prefixes, suffixes, part counts; case_seed = index in the list
+    ctx.fixed(report, "rid-shapes", |rep| {
+        let list = shape_strings();
+        const CHUNK: usize = 512;
+        parallel(ctx, rep, "rid-shapes", list.len().div_ceil(CHUNK), |item, env| {
+            for idx in item * CHUNK..((item + 1) * CHUNK).min(list.len()) {
+                if replay_seed.map(|o| o != idx as u64).unwrap_or(false) {
+                    continue;
+                }
+                env.seed = idx as u64;
+                let s = &list[idx];
+                env.rep.distinct.insert(fnv(&rid_sig(s)));
+                env.check::<ResourceIdentifier>(s);
+                env.rep.cell("exhaustive/rid-shapes/strings");
+                // a rid-looking string is never a token unless it matches the token grammar too
+                env.check::<BearerToken>(s);
+            }
+        });
+    });
+
+    // ---- random: valid values, one-edit mutants, long hostile strings
+    ctx.cases(report, "token-random", ctx.n(20_000, 2_000_000), |seed, rep| {
+        let mut r = Rng::new(seed);
+        let mut env = Env::new(rep, "token-random");
+        env.seed = seed;
+        let (s, kind) = match r.below(8) {
+            0 => (valid_token(&mut r), "valid"),
+            1 => (hostile_string(&mut r, 200), "hostile"),
+            2 => {
+                // long string over the boundary alphabet
+                let n = 5 + r.below(60);
+                ((0..n).map(|_| *r.pick(&TOKEN_ALPHABET)).collect(), "boundary-alphabet")
+            }
+            3 => {
+                // valid body with '=' somewhere
+                let mut t = valid_token(&mut r).trim_end_matches('=').to_string();
+                let at = r.below(t.len() + 1);
+                t.insert(at, '=');
+                (t, "equals-inside")
+            }
+            _ => {
+                let v = valid_token(&mut r);
+                mutate(&mut r, &v, &TOKEN_ALPHABET)
+            }
+        };
+        env.rep.sample(2, || json!({"sub": "token-random", "case_seed": seed, "kind": kind, "input": clip(&s)}));
+        env.rep.distinct.insert(fnv(&format!("{}:{}", kind, token_sig(&s))));
+        let valid = env.check::<BearerToken>(&s);
+        env.rep.cell(&format!("random/token/{}/{}", kind, if valid { "valid" } else { "invalid" }));
+        env.flush();
+    });
+
+    ctx.cases(report, "rid-random", ctx.n(20_000, 2_000_000), |seed, rep| {
+        let mut r = Rng::new(seed);
+        let mut env = Env::new(rep, "rid-random");
+        env.seed = seed;
+        let c = valid_components(&mut r);
+        let joined = format!("ri.{}.{}.{}.{}", c[0], c[1], c[2], c[3]);
+        let home: Vec<char> = "azAZ09-_.".chars().collect();
+        let (s, kind) = match r.below(8) {
+            0 => (joined.clone(), "valid"),
+            1 => (hostile_string(&mut r, 200), "hostile"),
+            2 => {
+                let n = 3 + r.below(40);
+                (format!("ri.{}", (0..n).map(|_| *r.pick(&RID_ALPHABET)).collect::<String>()), "boundary-alphabet")
+            }
+            3 => {
+                // wrong number of parts
+                let k = r.below(4);
+                (format!("ri.{}", c[..k].join(".")), "too-few-parts")
+            }
+            _ => mutate(&mut r, &joined, &home),
+        };
+        env.rep.sample(2, || json!({"sub": "rid-random", "case_seed": seed, "kind": kind, "input": clip(&s)}));
+        env.rep.distinct.insert(fnv(&format!("{}:{}", kind, rid_sig(&s))));
+        let valid = env.check::<ResourceIdentifier>(&s);
+        env.rep.cell(&format!("random/rid/{}/{}", kind, if valid { "valid" } else { "invalid" }));
+        // from_components: the valid tuple, and the tuple with one component edited / replaced
+        let mut t = c.clone();
+        let kind = match r.below(6) {
+            0 => "valid",
+            1 => {
+                let i = r.below(4);
+                t[i] = hostile_string(&mut r, 30);
+                "hostile-component"
+            }
+            2 => {
+                // a dot moved between neighbours keeps the joined string parseable
+                let i = r.below(3);
+                let moved = format!("{}.{}", t[i], t[i + 1]);
+                t[i] = moved;
+                t[i + 1] = word(&mut r, LOWER, LOWER_DIGIT, 1, 3);
+                "dot-inside-component"
+            }
+            3 => {
+                let i = r.below(4);
+                t[i] = String::new();
+                "empty-component"
+            }
+            _ => {
+                let i = r.below(4);
+                t[i] = mutate(&mut r, &c[i], &home).0;
+                "edited-component"
+            }
+        };
+        env.components([t[0].as_str(), t[1].as_str(), t[2].as_str(), t[3].as_str()]);
+        let all = (0..4).all(|i| rid_component_valid(i, &t[i]));
+        env.rep.cell(&format!("random/from_components/{}/{}", kind, if all { "valid" } else { "invalid" }));
+        env.rep.distinct.insert(fnv(&format!(
+            "from_components:{}:{}",
+            kind,
+            (0..4).map(|i| component_class(i, &t[i])).collect::<String>()
+        )));
+        env.flush();
+    });
+
+    if ctx.replay.is_none() {
+        // the exhaustive parts must be complete
+        let sum = |report: &Report, prefix: &str| -> u64 {
+            report.matrix.iter().filter(|(k, _)| k.starts_with(prefix)).map(|(_, v)| *v).sum()
+        };
+        let n = sum(report, "exhaustive/token-strings/len=");
+        report.floor("exhaustive-token-strings", token_total, n);
+        let n = sum(report, "exhaustive/rid-from_components/");
+        report.floor("exhaustive-rid-component-tuples", tuple_count(maxc, comp_maxt), n);
+        let n = sum(report, "exhaustive/rid-strings/total-len=");
+        report.floor("exhaustive-rid-strings", tuple_count(maxc, parse_maxt), n);
+        let n = sum(report, "exhaustive/rid-shapes/");
+        report.floor("rid-frame-strings", shape_strings().len() as u64, n);
+        // every path of both types, each seen accepting and rejecting
+        let both = |report: &Report, ty: &str| -> u64 {
+            PATHS
+                .iter()
+                .filter(|p| {
+                    report.matrix.contains_key(&format!("path/{}/{}/accepted", ty, p))
+                        && report.matrix.contains_key(&format!("path/{}/{}/rejected", ty, p))
+                })
+                .count() as u64
+        };
+        let (t, r) = (both(report, "token"), both(report, "rid"));
+        report.floor("token-paths-accepting-and-rejecting", PATHS.len() as u64, t);
+        report.floor("rid-paths-accepting-and-rejecting", PATHS.len() as u64, r);
+        report.floor_cells("from_components-accepting-and-rejecting", "path/rid/from_components/", 2);
+        let valid = report.matrix.get("exhaustive/rid-strings/valid").copied().unwrap_or(0);
+        report.floor("exhaustive-valid-rids", 50, valid);
+        let d = report.distinct.len() as u64;
+        report.floor("distinct-shapes", if small { 800 } else { 4_000 }, d);
+    }
+    report.notes.push(format!(
+        "exhaustive: true for (1) all {} strings of length 0..={} over the {}-character token boundary alphabet {:?}; \
+         (2) all {} rid component tuples over {:?} with every component <= {} and total length <= {} through from_components, \
+         and the {} joined strings `ri.a.b.c.d` with total length <= {} through every string entry path; \
+         (3) {} frame variants (prefix x suffix x part count). {} entry paths per type.",
+        token_total,
+        token_len,
+        TOKEN_ALPHABET.len(),
+        TOKEN_ALPHABET,
+        tuple_count(maxc, comp_maxt),
+        RID_ALPHABET,
+        maxc,
+        comp_maxt,
+        tuple_count(maxc, parse_maxt),
+        parse_maxt,
+        shape_strings().len(),
+        PATHS.len()
+    ));
+    report.notes.push(
+        "distinct = per-character class pattern (tokens up to length 4), per-component class pattern (rids), \
+         coarse class summaries for long / random strings and mutants (kind x summary)"
+            .into(),
+    );
 }
